@@ -147,4 +147,148 @@ theorem pf_filter_tcp (os : PfOs) (c : Call) (p : Pkt)
     obtain ⟨_, _, hms⟩ := hspec
     simp [hms]
 
+theorem any_congr' {α : Type} {f g : α → Bool} {l : List α} (h : ∀ a ∈ l, f a = g a) :
+    l.any f = l.any g := by
+  induction l with
+  | nil => rfl
+  | cons a t ih =>
+    simp only [List.any_cons, h a List.mem_cons_self, ih (fun x hx => h x (List.mem_cons_of_mem _ hx))]
+
+theorem isDns_any (c : Call) (p : Pkt) (hfam : c.family = AF_INET ∨ c.family = AF_INET6)
+    (hp : p.fam6 = isV6 c.family) (hns : ∀ ns ∈ c.nslist, ns.fam = c.family) :
+    Spec.isDnsToNs c.nslist p =
+      (p.proto == .udp && (c.nslist.any (fun ns => ns.addr == p.dst) && p.dport == 53)) := by
+  unfold Spec.isDnsToNs
+  rw [pktFam_eq hfam hp]
+  have : (c.nslist.any fun ns => ns.fam == c.family && ns.addr == p.dst) =
+      c.nslist.any (fun ns => ns.addr == p.dst) := by
+    apply any_congr'
+    intro ns h; simp [hns ns h]
+  rw [this]
+  cases p.proto == Proto.udp <;> cases p.dport == 53 <;> simp
+
+/-- The value list of the matching `pass out` rules / translation rules, per packet class. -/
+theorem pf_lists (os : PfOs) (c : Call) (p : Pkt)
+    (hfam : c.family = AF_INET ∨ c.family = AF_INET6)
+    (hwf : ∀ s ∈ c.subnets, Spec.WfEntry s ∧ s.fam = c.family)
+    (hp : p.fam6 = isV6 c.family) (hsrc : p.srcLo = false) :
+    (sortAsc c.subnets).filterMap (fun s =>
+        pfOutMatch c.nslist p (.passOut os (isV6 c.family) .tcp (.net (pfNetOf s)) (!s.excl))) =
+      ((sortAsc c.subnets).filter (fun s => p.proto == .tcp && Spec.entryMatches s p)).map (fun s => !s.excl) ∧
+    ((sortAsc c.subnets).filter (fun s => !s.excl)).filterMap (fun s =>
+        pfTransMatch c.nslist p (.translate os (isV6 c.family) .tcp (.net (pfNetOf s)) c.port)) =
+      (((sortAsc c.subnets).filter (fun s => !s.excl)).filter
+        (fun s => p.proto == .tcp && Spec.entryMatches s p)).map (fun _ => c.port) := by
+  have hsf : ∀ s ∈ sortAsc c.subnets, s.fam = (if isV6 c.family then AF_INET6 else AF_INET) := by
+    intro s hs; rw [(hwf s (mem_sortAsc.mp hs)).2]; exact famOf_isV6 hfam
+  constructor
+  · rw [← filterMap_ite]
+    apply filterMap_congr'
+    intro s hs
+    cases hpr : p.proto <;> simp [pfOutMatch, pfToMatch, hpr, hp, pfNet_match _ s p (hsf s hs) hp]
+  · rw [← filterMap_ite]
+    apply filterMap_congr'
+    intro s hs
+    have hs' := (List.mem_filter.mp hs).1
+    cases os <;> cases hpr : p.proto <;>
+      simp [pfTransMatch, pfToMatch, hpr, hp, hsrc, pfNet_match _ s p (hsf s hs') hp]
+
+theorem head?_map_const_of_mem {α β : Type} (l : List α) (b : β) (a : α) (h : a ∈ l) :
+    (l.map (fun _ => b)).head? = some b ∧ (l.map (fun _ => b)).getLast? = some b := by
+  cases l with
+  | nil => cases h
+  | cons x t =>
+    refine ⟨rfl, ?_⟩
+    rw [List.getLast?_map]
+    cases hl : (x :: t).getLast? with
+    | none => simp at hl
+    | some y => rfl
+
+/-- One pf anchor (one `setup_firewall` call) seen by a packet of either family. -/
+theorem pf_anchor_verdict (os : PfOs) (c : Call) (p : Pkt)
+    (hfam : c.family = AF_INET ∨ c.family = AF_INET6)
+    (hwf : ∀ s ∈ c.subnets, Spec.WfEntry s ∧ s.fam = c.family)
+    (hns : ∀ ns ∈ c.nslist, ns.fam = c.family) (hsrc : p.srcLo = false) :
+    verdictPfAnchor os (pfCallRules os c) p =
+      if p.fam6 = isV6 c.family then Spec.expectedCall c false false p else .untouched := by
+  unfold verdictPfAnchor
+  have htbl : pfTable (pfCallRules os c) = c.nslist := pfTable_pfRules _ _ _ _ _ _
+  simp only [htbl, pf_outs, pf_trans]
+  by_cases hp : p.fam6 = isV6 c.family
+  · rw [if_pos hp]
+    obtain ⟨hO1, hT1⟩ := pf_lists os c p hfam hwf hp hsrc
+    rw [hO1, hT1]
+    have hdns := isDns_any c p hfam hp hns
+    unfold Spec.expectedCall
+    simp only [Bool.false_and, Bool.false_eq_true, if_false, Bool.or_false]
+    cases hpr : p.proto with
+    | tcp =>
+      have hd : Spec.isDnsToNs c.nslist p = false := by rw [hdns, hpr]; simp
+      have hO2 : (if c.nslist.isEmpty then []
+          else (pfOutMatch c.nslist p (.passOut os (isV6 c.family) .udp .dnsTable true)).toList) = [] := by
+        split
+        · rfl
+        · simp [pfOutMatch, hpr]
+      have hT2 : (if c.nslist.isEmpty then []
+          else (pfTransMatch c.nslist p (.translate os (isV6 c.family) .udp .dnsTable c.dnsport)).toList) = [] := by
+        split
+        · rfl
+        · simp [pfTransMatch, hpr]
+      rw [hO2, hT2, hd]
+      simp only [List.append_nil, BEq.rfl, Bool.true_and, Bool.false_eq_true, if_false]
+      rw [List.getLast?_map]
+      have hspec := getLast?_sortAsc_spec c.subnets (fun s => Spec.entryMatches s p) p (fun _ _ => rfl)
+        (fun s hs => (hwf s hs).1)
+      cases hl : ((sortAsc c.subnets).filter (fun s => Spec.entryMatches s p)).getLast? with
+      | none => rw [hl] at hspec; simp only at hspec; simp [hspec]
+      | some s0 =>
+        rw [hl] at hspec; simp only at hspec
+        obtain ⟨_, hm0, hms⟩ := hspec
+        have hmemf := List.mem_of_getLast? hl
+        cases hx : s0.excl with
+        | true => simp [hms, hx]
+        | false =>
+          have hin : s0 ∈ ((sortAsc c.subnets).filter (fun s => !s.excl)).filter
+              (fun s => Spec.entryMatches s p) := by
+            rw [List.mem_filter, List.mem_filter]
+            exact ⟨⟨(List.mem_filter.mp hmemf).1, by simp [hx]⟩, hm0⟩
+          obtain ⟨h1, h2⟩ := head?_map_const_of_mem _ c.port s0 hin
+          simp only [Option.map_some, hx, Bool.not_false, hms]
+          cases os <;> simp only [h1, h2] <;> simp
+    | udp =>
+      have hO1' : ((sortAsc c.subnets).filter (fun s => Proto.udp == Proto.tcp && Spec.entryMatches s p)) = [] := by
+        rw [List.filter_eq_nil_iff]; intro s _; simp
+      have hT1' : (((sortAsc c.subnets).filter (fun s => !s.excl)).filter
+          (fun s => Proto.udp == Proto.tcp && Spec.entryMatches s p)) = [] := by
+        rw [List.filter_eq_nil_iff]; intro s _; simp
+      rw [hO1', hT1']
+      simp only [List.map_nil, List.nil_append, udp_beq_tcp, Bool.false_and, Bool.false_eq_true, if_false]
+      rw [hpr] at hdns
+      by_cases he : c.nslist.isEmpty = true
+      · have hnil : c.nslist = [] := List.isEmpty_iff.mp he
+        have hd : Spec.isDnsToNs c.nslist p = false := by rw [hdns, hnil]; simp
+        simp [he, hd]
+      · cases hd : Spec.isDnsToNs c.nslist p with
+        | false =>
+          rw [hd] at hdns
+          have hcond : (c.nslist.any (fun ns => ns.addr == p.dst) && p.dport == 53) = false := by
+            simpa using hdns.symm
+          simp [he, pfOutMatch, pfToMatch, hpr, hp, hcond]
+        | true =>
+          rw [hd] at hdns
+          have hcond : (c.nslist.any (fun ns => ns.addr == p.dst) && p.dport == 53) = true := by
+            simpa using hdns.symm
+          cases os <;> simp [he, pfOutMatch, pfTransMatch, pfToMatch, hpr, hp, hcond]
+  · rw [if_neg hp]
+    have hb : (p.fam6 == isV6 c.family) = false := by simpa using hp
+    have h1 : (sortAsc c.subnets).filterMap (fun s =>
+        pfOutMatch c.nslist p (.passOut os (isV6 c.family) .tcp (.net (pfNetOf s)) (!s.excl))) = [] := by
+      apply filterMap_nil_of; intro s _; simp [pfOutMatch, hb]
+    have h2 : (if c.nslist.isEmpty then []
+        else (pfOutMatch c.nslist p (.passOut os (isV6 c.family) .udp .dnsTable true)).toList) = [] := by
+      split
+      · rfl
+      · simp [pfOutMatch, hb]
+    rw [h1, h2]
+    simp
 end Sshuttle.Fw
